@@ -1124,11 +1124,11 @@ returns and leaves the base state `B` leaves, whatever the log.  A logging forwa
 (`simLog_layer`), hence so do n layers (`simLog_stack`) and whole histories (`forwarding_transparent_logged`). -/
 
 section logged
-variable {β : Type} {q : Queries β} {B : Ops β} {A : Ops (β × TLog)}
+variable {β : Type} {q : Queries β} {B : Ops β} {A : Ops (β × TLog)} {adm : Key → PD → β → Prop}
 
 local notation "LL" i => proxyLayer isCompatible toValueProp (logAt i)
 
-theorem simLog_isExt (h : LawfulCore q B) (hs : SimLog A B) (i : Nat) :
+theorem simLog_isExt (h : LawfulCore q B) (hs : SimLog adm A B) (i : Nat) :
     ∀ b l, ∃ l', ((LL i) A).isExt (b, l) = ((B.isExt b).1, ((B.isExt b).2, l')) := by
   intro b l
   simp only [proxyLayer, logAt]
@@ -1141,7 +1141,7 @@ theorem simLog_isExt (h : LawfulCore q B) (hs : SimLog A B) (i : Nat) :
   cases q.ext b <;> exact ⟨l2, by simp [mechIsExtensible]⟩
 
 
-theorem simLog_getProto (h : LawfulCore q B) (hs : SimLog A B) (i : Nat) :
+theorem simLog_getProto (h : LawfulCore q B) (hs : SimLog adm A B) (i : Nat) :
     ∀ b l, ∃ l', ((LL i) A).getProto (b, l) = ((B.getProto b).1, ((B.getProto b).2, l')) := by
   intro b l
   simp only [proxyLayer, logAt]
@@ -1159,7 +1159,7 @@ theorem simLog_getProto (h : LawfulCore q B) (hs : SimLog A B) (i : Nat) :
     exact ⟨l3, by cases q.proto b <;> simp [mechGetProto, toObject?, sameObj]⟩
   · exact ⟨l2, by simp⟩
 
-theorem simLog_setProto (h : LawfulCore q B) (hs : SimLog A B) (i : Nat) :
+theorem simLog_setProto (h : LawfulCore q B) (hs : SimLog adm A B) (i : Nat) :
     ∀ p b l, ∃ l', ((LL i) A).setProto p (b, l) = ((B.setProto p b).1, ((B.setProto p b).2, l')) := by
   intro p b l
   simp only [proxyLayer, logAt]
@@ -1184,7 +1184,7 @@ theorem simLog_setProto (h : LawfulCore q B) (hs : SimLog A B) (i : Nat) :
           exact ⟨l3, by simp [mechSetProto, sameObj, hp]⟩
         · exact ⟨l2, by simp⟩
 
-theorem simLog_prevExt (h : LawfulCore q B) (hs : SimLog A B) (i : Nat) :
+theorem simLog_prevExt (h : LawfulCore q B) (hs : SimLog adm A B) (i : Nat) :
     ∀ b l, ∃ l', ((LL i) A).prevExt (b, l) = ((B.prevExt b).1, ((B.prevExt b).2, l')) := by
   intro b l
   simp only [proxyLayer, logAt]
@@ -1201,7 +1201,7 @@ theorem simLog_prevExt (h : LawfulCore q B) (hs : SimLog A B) (i : Nat) :
       rw [h2, h.isExt_eq]
       exact ⟨l2, by simp [h.prevExt_inv b b' hr, mechPreventExtensions]⟩
 
-theorem simLog_getOwn (h : LawfulCore q B) (hs : SimLog A B) (i : Nat) :
+theorem simLog_getOwn (h : LawfulCore q B) (hs : SimLog adm A B) (i : Nat) :
     ∀ k b l, ∃ l', ((LL i) A).getOwn k (b, l) = ((B.getOwn k b).1, ((B.getOwn k b).2, l')) := by
   intro k b l
   simp only [proxyLayer, logAt]
@@ -1219,7 +1219,7 @@ theorem simLog_getOwn (h : LawfulCore q B) (hs : SimLog A B) (i : Nat) :
     refine ⟨l3, ?_⟩
     simp [optCurToTProp, h3, h.isExt_eq, hr, TProp.toOptCur, hrc]
 
-theorem simLog_ownKeys (h : LawfulCore q B) (hs : SimLog A B) (i : Nat) :
+theorem simLog_ownKeys (h : LawfulCore q B) (hs : SimLog adm A B) (i : Nat) :
     ∀ b l, ∃ l', ((LL i) A).ownKeys (b, l) = ((B.ownKeys b).1, ((B.ownKeys b).2, l')) := by
   intro b l
   simp only [proxyLayer, logAt]
@@ -1234,11 +1234,11 @@ theorem simLog_ownKeys (h : LawfulCore q B) (hs : SimLog A B) (i : Nat) :
   exact ⟨l3, by simp [ownKeys_honest (q.ext b) (q.keys b) (h.keys_nodup b)]⟩
 
 
-theorem simLog_define (h : Lawful q B) (hs : SimLog A B) (i : Nat) :
-    ∀ k d b l, ∃ l', ((LL i) A).define k d (b, l) = ((B.define k d b).1, ((B.define k d b).2, l')) := by
-  intro k d b l
+theorem simLog_define (h : LawfulOn adm q B) (hs : SimLog adm A B) (i : Nat) :
+    ∀ k d b l, adm k d b → ∃ l', ((LL i) A).define k d (b, l) = ((B.define k d b).1, ((B.define k d b).2, l')) := by
+  intro k d b l hadm
   simp only [proxyLayer, logAt]
-  obtain ⟨l1, h1⟩ := hs.define k d b (l ++ [(i, .defineProperty)])
+  obtain ⟨l1, h1⟩ := hs.define k d b (l ++ [(i, .defineProperty)]) hadm
   rw [h1]
   by_cases hwf : d.WF
   · rcases hr : B.define k d b with ⟨r, b'⟩
@@ -1255,14 +1255,14 @@ theorem simLog_define (h : Lawful q B) (hs : SimLog A B) (i : Nat) :
         simp only [bindR_ok]
         rw [h3, h.isExt_eq]
         simp only [bindR_ok]
-        have hspec := h.define_inv k d b b' hr
+        have hspec := h.define_inv_on k d b b' hadm hr
         have hm : mechDefine isCompatible (optCurToTProp (q.own k b')) (q.ext b') d.toDesc true false = .ok true := by
           rw [define_eq_spec _ _ _ _ _ (PD.toDesc_valid d hwf) (optCur_wf _), optCur_toCur, PD.toDesc_toPD]
           simp [specDefine, hspec]
         simp [mechDefine_ok_post hm]
   · exact ⟨l1, by simp [h.define_wf k d b hwf]⟩
 
-theorem simLog_has (h : LawfulCore q B) (hs : SimLog A B) (i : Nat) :
+theorem simLog_has (h : LawfulCore q B) (hs : SimLog adm A B) (i : Nat) :
     ∀ k b l, ∃ l', ((LL i) A).has k (b, l) = ((B.has k b).1, ((B.has k b).2, l')) := by
   intro k b l
   simp only [proxyLayer, logAt]
@@ -1294,7 +1294,7 @@ theorem simLog_has (h : LawfulCore q B) (hs : SimLog A B) (i : Nat) :
           | typeError => simp [hh] at hm
     · exact ⟨l1, by simp⟩
 
-theorem simLog_get (h : LawfulCore q B) (hs : SimLog A B) (i : Nat) :
+theorem simLog_get (h : LawfulCore q B) (hs : SimLog adm A B) (i : Nat) :
     ∀ k r b l, ∃ l', ((LL i) A).get k r (b, l) = ((B.get k r b).1, ((B.get k r b).2, l')) := by
   intro k rcv b l
   simp only [proxyLayer, logAt]
@@ -1317,7 +1317,7 @@ theorem simLog_get (h : LawfulCore q B) (hs : SimLog A B) (i : Nat) :
     | ok u => cases u; simp
     | typeError => simp [hh] at hm
 
-theorem simLog_set (h : LawfulCore q B) (hs : SimLog A B) (i : Nat) :
+theorem simLog_set (h : LawfulCore q B) (hs : SimLog adm A B) (i : Nat) :
     ∀ k v r b l, ∃ l', ((LL i) A).set k v r (b, l) = ((B.set k v r b).1, ((B.set k v r b).2, l')) := by
   intro k v rcv b l
   simp only [proxyLayer, logAt]
@@ -1342,7 +1342,7 @@ theorem simLog_set (h : LawfulCore q B) (hs : SimLog A B) (i : Nat) :
       | ok u => cases u; simp
       | typeError => simp [hh] at hm
 
-theorem simLog_delete (h : LawfulCore q B) (hs : SimLog A B) (i : Nat) :
+theorem simLog_delete (h : LawfulCore q B) (hs : SimLog adm A B) (i : Nat) :
     ∀ k b l, ∃ l', ((LL i) A).delete k (b, l) = ((B.delete k b).1, ((B.delete k b).2, l')) := by
   intro k b l
   simp only [proxyLayer, logAt]
@@ -1374,7 +1374,7 @@ theorem simLog_delete (h : LawfulCore q B) (hs : SimLog A B) (i : Nat) :
           | ok u => cases u; simp [hcf, h3, h.isExt_eq, hh]
           | typeError => simp [hh] at hm
 
-theorem simLog_call (h : LawfulCore q B) (hs : SimLog A B) (i : Nat) :
+theorem simLog_call (h : LawfulCore q B) (hs : SimLog adm A B) (i : Nat) :
     ∀ this args b l, ∃ l', ((LL i) A).call this args (b, l) = ((B.call this args b).1, ((B.call this args b).2, l')) := by
   intro this args b l
   simp only [proxyLayer, logAt, hs.callable]
@@ -1386,7 +1386,7 @@ theorem simLog_call (h : LawfulCore q B) (hs : SimLog A B) (i : Nat) :
     rcases B.call this args b with ⟨r, b'⟩
     cases r <;> rfl
 
-theorem simLog_construct (h : LawfulCore q B) (hs : SimLog A B) (i : Nat) :
+theorem simLog_construct (h : LawfulCore q B) (hs : SimLog adm A B) (i : Nat) :
     ∀ args nt b l, ∃ l', ((LL i) A).construct args nt (b, l) = ((B.construct args nt b).1, ((B.construct args nt b).2, l')) := by
   intro args nt b l
   simp only [proxyLayer, logAt, hs.constructor]
@@ -1399,7 +1399,7 @@ theorem simLog_construct (h : LawfulCore q B) (hs : SimLog A B) (i : Nat) :
     cases r <;> rfl
 
 /-- one logging forwarding layer preserves "behaves as B up to the log" -/
-theorem simLog_layer (h : Lawful q B) (hs : SimLog A B) (i : Nat) : SimLog ((LL i) A) B where
+theorem simLog_layer (h : LawfulOn adm q B) (hs : SimLog adm A B) (i : Nat) : SimLog adm ((LL i) A) B where
   getProto := simLog_getProto h.toLawfulCore hs i
   setProto := simLog_setProto h.toLawfulCore hs i
   isExt := simLog_isExt h.toLawfulCore hs i
@@ -1416,13 +1416,13 @@ theorem simLog_layer (h : Lawful q B) (hs : SimLog A B) (i : Nat) : SimLog ((LL 
   call := simLog_call h.toLawfulCore hs i
   construct := simLog_construct h.toLawfulCore hs i
 
-theorem simLog_lift (B : Ops β) : SimLog (liftOps B) B where
+theorem simLog_lift (B : Ops β) : SimLog adm (liftOps B) B where
   getProto := fun _ l => ⟨l, rfl⟩
   setProto := fun _ _ l => ⟨l, rfl⟩
   isExt := fun _ l => ⟨l, rfl⟩
   prevExt := fun _ l => ⟨l, rfl⟩
   getOwn := fun _ _ l => ⟨l, rfl⟩
-  define := fun _ _ _ l => ⟨l, rfl⟩
+  define := fun _ _ _ l _ => ⟨l, rfl⟩
   has := fun _ _ l => ⟨l, rfl⟩
   get := fun _ _ _ l => ⟨l, rfl⟩
   set := fun _ _ _ _ l => ⟨l, rfl⟩
@@ -1433,13 +1433,13 @@ theorem simLog_lift (B : Ops β) : SimLog (liftOps B) B where
   call := fun _ _ _ l => ⟨l, rfl⟩
   construct := fun _ _ _ l => ⟨l, rfl⟩
 
-theorem simLog_stack (h : Lawful q B) (n : Nat) :
-    SimLog (stack isCompatible toValueProp (fun i => logAt i) (liftOps B) n) B := by
+theorem simLog_stack (h : LawfulOn adm q B) (n : Nat) :
+    SimLog adm (stack isCompatible toValueProp (fun i => logAt i) (liftOps B) n) B := by
   induction n with
   | zero => exact simLog_lift B
   | succ n ih => exact simLog_layer h ih (n + 1)
 
-theorem simLog_run (hs : SimLog A B) (op : Op) (b : β) (l : TLog) :
+theorem simLog_run (hs : SimLog adm A B) (op : Op) (b : β) (l : TLog) (ha : op.adm adm b) :
     (A.run op (b, l)).1 = (B.run op b).1 ∧ (A.run op (b, l)).2.1 = (B.run op b).2 := by
   cases op with
   | getProto => obtain ⟨l', e⟩ := hs.getProto b l; simp [Ops.run, e]
@@ -1447,7 +1447,7 @@ theorem simLog_run (hs : SimLog A B) (op : Op) (b : β) (l : TLog) :
   | isExt => obtain ⟨l', e⟩ := hs.isExt b l; simp [Ops.run, e]
   | prevExt => obtain ⟨l', e⟩ := hs.prevExt b l; simp [Ops.run, e]
   | getOwn k => obtain ⟨l', e⟩ := hs.getOwn k b l; simp [Ops.run, e]
-  | define k d => obtain ⟨l', e⟩ := hs.define k d b l; simp [Ops.run, e]
+  | define k d => obtain ⟨l', e⟩ := hs.define k d b l ha; simp [Ops.run, e]
   | has k => obtain ⟨l', e⟩ := hs.has k b l; simp [Ops.run, e]
   | get k r => obtain ⟨l', e⟩ := hs.get k r b l; simp [Ops.run, e]
   | set k v r => obtain ⟨l', e⟩ := hs.set k v r b l; simp [Ops.run, e]
@@ -1463,20 +1463,22 @@ theorem simLog_run (hs : SimLog A B) (op : Op) (b : β) (l : TLog) :
     cases B.constructor <;> simp [e]
   | typeof => simp [Ops.run, hs.callable, hs.constructor]
 
-theorem simLog_runAll (hs : SimLog A B) (ops : List Op) : ∀ (b : β) (l : TLog),
+theorem simLog_runAll (hs : SimLog adm A B) (ops : List Op) : ∀ (b : β) (l : TLog), admHist B adm ops b →
     (A.runAll ops (b, l)).1 = (B.runAll ops b).1 ∧ (A.runAll ops (b, l)).2.1 = (B.runAll ops b).2 := by
   induction ops with
-  | nil => intro b l; simp [Ops.runAll]
+  | nil => intro b l _; simp [Ops.runAll]
   | cons op rest ih =>
-    intro b l
-    have h1 := simLog_run hs op b l
+    intro b l ha
+    have h1 := simLog_run hs op b l ha.1
+    have ha2 := ha.2
     simp only [Ops.runAll]
     rcases hA : A.run op (b, l) with ⟨o, b1, l1⟩
     rcases hB : B.run op b with ⟨o', b1'⟩
     rw [hA, hB] at h1
-    simp only at h1
+    rw [hB] at ha2
+    simp only at h1 ha2
     obtain ⟨rfl, rfl⟩ := h1
-    have h2 := ih b1 l1
+    have h2 := ih b1 l1 ha2
     rcases hA2 : A.runAll rest (b1, l1) with ⟨os, b2, l2⟩
     rcases hB2 : B.runAll rest b1 with ⟨os', b2'⟩
     rw [hA2, hB2] at h2
@@ -1484,15 +1486,33 @@ theorem simLog_runAll (hs : SimLog A B) (ops : List Op) : ∀ (b : β) (l : TLog
     obtain ⟨rfl, rfl⟩ := h2
     simp
 
+theorem admHist_true (T : Ops β) (ops : List Op) : ∀ b, admHist T (fun _ _ _ => True) ops b := by
+  induction ops with
+  | nil => intro b; trivial
+  | cons op rest ih => intro b; exact ⟨by cases op <;> trivial, ih _⟩
+
+/-- the instrumented system on admissible inputs: n logging forwarding layers over an object lawful on `adm` -/
+theorem forwarding_transparent_logged_on (h : LawfulOn adm q B) (n : Nat) (ops : List Op) (b : β) (l : TLog)
+    (ha : admHist B adm ops b) :
+    ((stack isCompatible toValueProp (fun i => logAt i) (liftOps B) n).runAll ops (b, l)).1 = (B.runAll ops b).1 ∧
+    ((stack isCompatible toValueProp (fun i => logAt i) (liftOps B) n).runAll ops (b, l)).2.1 = (B.runAll ops b).2 :=
+  simLog_runAll (simLog_stack h n) ops b l ha
 
 /-- FORWARDING TRANSPARENCY of the instrumented system: n logging forwarding layers over a lawful object, any history,
 any initial log — the observations and the final base state are those of the history applied to the object itself -/
 theorem forwarding_transparent_logged (h : Lawful q B) (n : Nat) (ops : List Op) (b : β) (l : TLog) :
     ((stack isCompatible toValueProp (fun i => logAt i) (liftOps B) n).runAll ops (b, l)).1 = (B.runAll ops b).1 ∧
     ((stack isCompatible toValueProp (fun i => logAt i) (liftOps B) n).runAll ops (b, l)).2.1 = (B.runAll ops b).2 :=
-  simLog_runAll (simLog_stack h n) ops b l
+  forwarding_transparent_logged_on (h.toOn (fun _ _ _ => True)) n ops b l (admHist_true B ops b)
 
 end logged
+
+/-- … for an array, on histories whose `length` definitions are canonical -/
+theorem forwarding_transparent_logged_array (A : AEnv) (n : Nat) (ops : List Op) (s : AState) (l : TLog)
+    (ha : admHist (arrOps A) (arrAdm A) ops s) :
+    ((stack isCompatible toValueProp (fun i => logAt i) (liftOps (arrOps A)) n).runAll ops (s, l)).1 = ((arrOps A).runAll ops s).1 ∧
+    ((stack isCompatible toValueProp (fun i => logAt i) (liftOps (arrOps A)) n).runAll ops (s, l)).2.1 = ((arrOps A).runAll ops s).2 :=
+  forwarding_transparent_logged_on (array_lawfulOn A) n ops s l ha
 
 /-- … for the ordinary object -/
 theorem forwarding_transparent_logged_ordinary (E : Env) (n : Nat) (ops : List Op) (s : OState) (l : TLog) :
